@@ -49,6 +49,62 @@ def instrumented_guard(g, node, recv):
     return bool(vals) and all(v.get(k) is True for v in vals)
 
 
+def detect_spy_decoration(run, model):
+    """start_at decides from the initial state's handler whether the chart is spied on; if it is not, instrumentation is switched off (the instrumented
+    processors send REFLECTION to handlers, and an undecorated handler answers REFLECTION like any unknown signal: by naming its parent - the search then starts
+    one level too high).  The decision must rest on something only the spy_on wrapper has."""
+    import re as _re
+    from sa.util import expand_locals
+    run.rule('DETECT.spy-decoration', 'instrumentation stays on at start only on evidence specific to the spy_on wrapper (its code/function name, or an attribute only spy_on sets), '
+                                     'never on what every decorator provides (__wrapped__, __closure__, __dict__ ...)')
+    outer = next((f for f in model.all_funcs() if f.name == 'spy_on_start' and f.owner_class is None), None)
+    spy = next((f for f in model.all_funcs() if f.name == 'spy_on' and f.owner_class is None), None)
+    if outer is None or spy is None or not outer.nested or not spy.nested:
+        raise AnalysisError('spy_on / spy_on_start and their wrappers not found')
+    inner = list(outer.nested.values())[0]
+    wrapper_names = set(spy.nested)
+    # attributes spy_on sets explicitly on the wrapper it returns
+    own_attrs = set()
+    for n in ast.walk(spy.node):
+        if isinstance(n, ast.Assign):
+            for t in n.targets:
+                if isinstance(t, ast.Attribute) and isinstance(t.value, ast.Name) and t.value.id in wrapper_names:
+                    own_attrs.add(t.attr)
+    if len(inner.params) < 2:
+        raise AnalysisError('spy_on_start wrapper does not take (self, initial_state)')
+    hp = inner.params[1]
+    offs = [n for n in ast.walk(inner.node) if isinstance(n, ast.Assign) and any(dotted(t) == inner.params[0] + '.instrumented' for t in n.targets)
+            and isinstance(n.value, ast.Constant) and n.value.value is False]
+    run.floor('spy_on_start: places that switch instrumentation off', len(offs), 1)
+    specific, generic = [], []
+    for t in [n for n in ast.walk(inner.node) if isinstance(n, (ast.If, ast.IfExp, ast.While))]:
+        x = expand_locals(t.test, inner.node, params=inner.params)
+        # a local that holds the answer of a call on the handler (`m = re.search(.., str(initial_state.__code__))`) stands for that call
+        ldefs_ = local_defs(inner.node)
+        extra_ = [d_ for y in ast.walk(x) if isinstance(y, ast.Name) and y.id != hp for d_ in ldefs_.get(y.id, []) if isinstance(d_, ast.AST)]
+        if extra_:
+            x = ast.Tuple(elts=[x] + extra_, ctx=ast.Load())
+        if not any(isinstance(y, ast.Name) and y.id == hp for y in ast.walk(x)):
+            continue
+        lits = [y.value for y in ast.walk(x) if isinstance(y, ast.Constant) and isinstance(y.value, str)]
+        attrs = {y.attr for y in ast.walk(x) if isinstance(y, ast.Attribute) and isinstance(y.value, ast.Name) and y.value.id == hp}
+        attrs |= {y.args[1].value for y in ast.walk(x) if isinstance(y, ast.Call) and isinstance(y.func, ast.Name) and y.func.id in ('hasattr', 'getattr') and len(y.args) >= 2
+                  and isinstance(y.args[0], ast.Name) and y.args[0].id == hp and isinstance(y.args[1], ast.Constant)}
+        by_name = attrs & {'__code__', '__name__', '__qualname__'} and any(any(_re.search(l, w) for w in wrapper_names) for l in lits if l)
+        by_attr = attrs & own_attrs
+        if by_name or by_attr:
+            specific.append(norm(x))
+        else:
+            generic.append((norm(x), sorted(attrs)))
+    ok = bool(specific)
+    run.inst('DETECT.spy-decoration', inner, 'evidence for "spied on": %s' % (specific or [g_[0] for g_ in generic]), ok,
+             '' if ok else ('spy_on_start keeps the chart instrumented on the evidence of %s alone - attributes every decorator built with functools.wraps provides, not only spy_on (the wrapper '
+                            'spy_on returns is %s%s): states wrapped by some other decorator are taken for spied ones, the instrumented processors then send REFLECTION to the raw handlers, '
+                            'which answer it by naming their parent, and events are offered one level too high - the chart behaves differently from the same chart on the plain processor'
+                            % ([g_[1] for g_ in generic], sorted(wrapper_names), (', which sets ' + ', '.join(sorted(own_attrs))) if own_attrs else '')), obligation=True)
+
+
+
 def check(run, model, tier):
     run.explanation = ('Every piece of instrumentation in miros is a decorator wrapper or a selector override around the plain event '
                        'processor. For each of them the CFG is built and three facts are decided: the wrapped function runs exactly once '
@@ -263,5 +319,6 @@ def check(run, model, tier):
                                             'slow, held up or dead, the instrumented chart stalls inside next_rtc after %s lines, while the same chart without live output (or without the '
                                             'spy decorator) runs on' % (f_.qualname, norm(qc), norm(size))), node=c_, obligation=True)
     run.floor('live-output hand-over sites', n_q, 1)
+    detect_spy_decoration(run, model)
     run.assume('H4: state handlers cannot reach the processor\'s or the wrappers\' locals')
     run.assume('wrappers registered by users (live callbacks) are outside the quantifier')
